@@ -27,6 +27,9 @@ CLAUSE = CLAUSE + (" The PES header validation reads no byte beyond the look-ahe
 CLAUSE = CLAUSE + (" frame_pts is latched from packet_pts only under dx->new_frame; no case of the PES header switch falls through "
                    "into another label.")
 CLAUSE = CLAUSE + (' (RF-UNIT) every wrap-around skip computed behind the start-code scan anchor contains the scanned distance (cursor - anchor).')
+CLAUSE = CLAUSE + (" Both callers of demux_pes_packet_frame() store new_frame := TRUE for an error result (a value of its return range "
+                   "other than 0 and VBI_ERR_CALLBACK): the lines of the damaged frame are dropped, so the frame cursor cannot stay at "
+                   "the end of the line buffer.")
 NOT_DECIDED = ("partition invariance as such (that feeding byte by byte yields identical frames), 'all but the first frame after "
                "damage are delivered', PES/TS header field semantics.")
 
@@ -71,6 +74,7 @@ def run(ctx, run):
     _no_case_fallthrough(ctx, run, P.need("valid_vbi_pes_packet_header", UNIT))
     _skip_counts_from_anchor(ctx, run, P.need("demux_pes_packet", UNIT))
     _unit_fits_the_end(ctx, run, P.need("extract_data_units", UNIT))
+    _frame_error_discards(ctx, run)
     # partition invariance: the header validation looks only at bytes the wrap-around buffer has been
     # asked to provide (rule shared with C06)
     from . import C06
@@ -861,3 +865,76 @@ def _no_case_fallthrough(ctx, run, f):
     if n == 0:
         run.holds("RF-CORR", "RF-CORR:%s:case-fallthrough" % f.name, "no case body of the header switch falls through into another label",
                   "%s:%d" % (f.file, f.line), nontrivial=False)
+
+
+def _frame_error_discards(ctx, run):
+    """After demux_pes_packet_frame() reported an error, the lines collected for the damaged frame have to be dropped
+    (new_frame := TRUE makes the next call reset the frame).  If they are kept, a frame that filled the line buffer
+    leaves the cursor at its end, line_address() refuses every later data unit before it can see that a new frame
+    began, and nothing is delivered any more.  The two callers (PES and TS path) are siblings: for each, a store
+    new_frame := TRUE must be reached for a generic error value of the callee's return range (the guards on the result
+    local that dominate the store are evaluated on that value; a guard like `err < 0`, which no return value of the
+    callee satisfies, makes the store dead code)."""
+    P = ctx.prog
+    callee = P.need("demux_pes_packet_frame", UNIT)
+    rr = ctx.ret_range(callee)
+    consts = P.enum_consts
+    cb = consts.get("VBI_ERR_CALLBACK")
+    sample = consts.get("VBI_ERR_SLICED_BUFFER_OVERFLOW")
+    if cb is None or sample is None:
+        raise AnalysisBroken("dvb_demux.c: VBI_ERR_CALLBACK / VBI_ERR_SLICED_BUFFER_OVERFLOW not found")
+    if rr is None or rr[0] is None or rr[1] is None or not (rr[0] <= sample <= rr[1]):
+        raise AnalysisBroken("demux_pes_packet_frame: return range %s does not contain the error codes" % (rr,))
+    import operator
+    OPS = {"<": operator.lt, "<=": operator.le, ">": operator.gt, ">=": operator.ge, "==": operator.eq, "!=": operator.ne}
+    n = 0
+    for name in ("demux_pes_packet", "demux_ts_packet"):
+        f = P.need(name, UNIT)
+        run.touch(f)
+        for bid, i in flow.all_events(f):
+            for lhs, var, op, rhs in flow.stores(f, i):
+                if rhs is None or op != "=":
+                    continue
+                r = f.exprs[ex.skip(f, rhs)]
+                if not (r["k"] == "call" and r.get("callee") == "demux_pes_packet_frame"):
+                    continue
+                res = var["name"] if var is not None else f.exprs[ex.skip(f, lhs)].get("name")
+                if res is None:
+                    continue
+                n += 1
+                # stores new_frame := TRUE reachable from the call before the next call
+                reached_for_error = False
+                dead = []
+                for b2, j in flow.all_events(f):
+                    if not atoms.store_to_field("_vbi_dvb_demux.new_frame")(f, j):
+                        continue
+                    st = flow.stores(f, j)
+                    if not st or st[0][3] is None or ex.const(f, st[0][3]) in (0, None):
+                        continue
+                    if not (b2 == bid or b2 in flow.reach_from(f, bid)):
+                        continue
+                    on_res = [a for a in atoms.atoms_at(f, j) if a.R is not None and a.R.const is not None and a.L.locals == {res}
+                              and not a.L.fields and not a.L.calls and a.rel in OPS and a.src is not None
+                              and (a.src == bid or a.src in flow.reach_from(f, bid))]
+                    if not on_res:
+                        continue
+                    if all(OPS[a.rel](sample, a.R.const) for a in on_res):
+                        reached_for_error = True
+                    elif not any(OPS[a.rel](v, a.R.const) for a in on_res for v in (rr[0], rr[1], sample, cb, 0)) or \
+                            any(not any(OPS[a.rel](v, a.R.const) for v in (rr[0], rr[1], sample, cb, 0)) for a in on_res):
+                        dead.append((j, on_res))
+                key = "RF-CORR:%s:frame-error-discards" % name
+                if reached_for_error:
+                    run.holds("RF-CORR", key, "after `%s` an error result (e.g. 0x%X) reaches new_frame := TRUE" % (ex.pretty(f, i)[:50], sample),
+                              ex.loc(f, i))
+                else:
+                    why = ""
+                    if dead:
+                        why = " (`%s` is guarded by %s, which no value of the return range %s satisfies)" % (
+                            ex.pretty(f, dead[0][0])[:40], " and ".join(repr(a) for a in dead[0][1]), list(rr))
+                    run.violation("RF-CORR", key, "after `%s` no store new_frame := TRUE is reached for an error result such as "
+                                  "VBI_ERR_SLICED_BUFFER_OVERFLOW (0x%X)%s: the lines of the damaged frame are kept, the cursor of a full "
+                                  "line buffer stays at its end and every later data unit is refused - the demultiplexer delivers nothing "
+                                  "any more" % (ex.pretty(f, i)[:50], sample, why), ex.loc(f, i),
+                                  witness={"function": name, "return_range": list(rr), "sample_error": sample})
+    run.floor("callers of demux_pes_packet_frame", n, 2)
